@@ -20,19 +20,23 @@ func smoke(args []string) int {
 		fmt.Println("build:", err)
 		return 1
 	}
-	from, to := harness.FullID(harness.ChainA, "s1"), harness.FullID(harness.ChainB, "s1")
-	ib := harness.MkIBTP(from, to, 1, pb.IBTP_INTERCHAIN, 0)
-	raw, _ := ib.Marshal()
-	k := harness.User(3)
-	rc, _ := w.Call(k, harness.AddrInterchain, "HandleIBTPData", pb.Bytes(raw))
-	fmt.Println("HandleIBTPData:", rc.Status, string(rc.Ret))
-	fmt.Println("victim counters:", w.Interchain(from))
-	rc, _ = w.Call(k, harness.AddrBroker, "EmitInterchain", pb.String(from), pb.String(to), pb.String("f,cb,rb"), pb.String("x"), pb.String("y"), pb.String("z"))
-	fmt.Println("EmitInterchain:", rc.Status, string(rc.Ret))
-	fmt.Println("victim counters:", w.Interchain(from))
-	rc, _ = w.Call(k, harness.AddrInterchain, "DeleteInterchain", pb.String(from))
-	fmt.Println("DeleteInterchain:", rc.Status, string(rc.Ret))
-	fmt.Println("victim counters:", w.Interchain(from))
+	from := harness.FullID(harness.ChainC, "s2")
+	keys := []string{harness.FullID(harness.ChainA, "s1"), harness.FullID(harness.ChainB, "s1")}
+	vals := []uint64{1, 1}
+	grp := &pb.StringUint64Map{Keys: keys, Vals: vals}
+	gid := globalTxID(from, keys, vals)
+	send := func(to string, typ pb.IBTP_Type) {
+		ib := harness.MkIBTP(from, to, 1, typ, 2)
+		ib.Group = grp
+		res, _ := w.Exec(w.IBTPTx(harness.User(0), ib, []byte("p")))
+		fmt.Printf("h=%d %v->%s: %v %s | global status %d | meta %s\n", res.Height, typ, to, res.Receipts[0].Status, string(res.Receipts[0].Ret), w.Status(gid), canonicalMeta(res.Meta))
+	}
+	send(keys[0], pb.IBTP_INTERCHAIN)
+	send(keys[0], pb.IBTP_RECEIPT_SUCCESS)
+	for i := 0; i < 3; i++ {
+		res, _ := w.Exec()
+		fmt.Printf("h=%d empty | global status %d | meta %s\n", res.Height, w.Status(gid), canonicalMeta(res.Meta))
+	}
 	w.R.Close()
 	return 0
 }
